@@ -88,7 +88,16 @@ struct PSpec {
   std::vector<int> has_preset;     // size 3 (0/1)
   int mn = 0, mx = 0; bool has_range = false;
   std::vector<std::string> opts;
-  template <class A> void io(A &a) { a(field)(has_default)(depends)(dflt)(has_preset)(mn)(mx)(has_range)(opts); }
+  int depends_on = -1;             // rDepends(<field>): the application resets this parameter when that one changes
+  // format note: a field id >= 1000 marks records that carry depends_on (older case files do not)
+  template <class A> void io(A &a) {
+    int f = field + 1000;
+    a(f);
+    bool ext = f >= 1000;
+    field = ext ? f - 1000 : f;
+    a(has_default)(depends)(dflt)(has_preset)(mn)(mx)(has_range)(opts);
+    if (ext) a(depends_on); else depends_on = -1;
+  }
   const Val &default_for(int preset) const {
     if (depends && preset >= 0 && preset < 3 && has_preset[(size_t)preset]) return dflt[(size_t)preset + 1];
     return dflt[0];
@@ -107,6 +116,7 @@ struct AppSpec {
     auto one = [&](const PSpec &p) {
       std::string s = std::string(name_of(p.field)) + spec_of(p.field);
       if (p.has_range) s += "[" + std::to_string(p.mn) + ".." + std::to_string(p.mx) + "]";
+      if (p.depends_on >= 0) s += std::string("(depends ") + name_of(p.depends_on) + ")";
       if (!p.has_default) s += "(no default)";
       else { s += "=" + p.dflt[0].show(kind_of(p.field)); if (p.depends) for (int k = 0; k < 3; k++) if (p.has_preset[(size_t)k]) s += "|p" + std::to_string(k) + "=" + p.dflt[(size_t)k + 1].show(kind_of(p.field)); }
       return s + " ";
@@ -164,6 +174,7 @@ inline std::string meta_of(const PSpec &p) {
     }
     map("default", spell(p.dflt[0], p));
   }
+  if (p.depends_on >= 0) map("depends", std::string(name_of(p.depends_on)) + ",");
   map("documentation", "generated");
   return m;
 }
@@ -282,8 +293,13 @@ struct App {
     for (Sub *s : subs()) for (auto &p : spec.sub) if (p.has_default) set_sub(*s, p.field, p.dflt[0]);
   }
   // application semantics: a new preset resets every parameter whose default depends on it
+  // and a parameter that declares rDepends(x) is reset when x changes (transitively)
   void on_changed(const char *loc) {
-    if (!strcmp(loc, "/preset")) for (auto &p : spec.root) if (p.has_default && p.depends) set_root(root, p.field, p.default_for(root.preset));
+    bool ri_changed = !strcmp(loc, "/ri");
+    if (!strcmp(loc, "/preset"))
+      for (auto &p : spec.root) if (p.has_default && p.depends) { set_root(root, p.field, p.default_for(root.preset)); if (p.field == RI) ri_changed = true; }
+    if (ri_changed)
+      for (auto &p : spec.root) if (p.has_default && p.depends_on == RI) set_root(root, p.field, p.default_for(root.preset));
   }
   void dispatch(const std::string &msg) {
     attach();
@@ -361,6 +377,8 @@ inline AppSpec gen_spec() {
   s.self_on = vf::chance(35);
   if (s.self_on) { PSpec p; p.field = ON; p.has_default = true; p.has_preset.assign(3, 0); Val d; d.i = vf::chance(75); p.dflt.assign(4, d); s.sub.insert(s.sub.begin() + vf::pickn((int)s.sub.size() + 1), p); }
   s.ptr_port = s.has_sub && vf::chance(40);
+  { bool has_ri = false; for (auto &p : s.root) if (p.field == RI) has_ri = true;
+    for (auto &p : s.root) if (p.field == RJ && has_ri && vf::chance(60)) p.depends_on = RI; }
   // random order of the root parameter ports (the preset port may come after its dependants)
   for (size_t i = s.root.size(); i > 1; i--) std::swap(s.root[i - 1], s.root[(size_t)vf::pickn((int)i)]);
   return s;
@@ -393,4 +411,92 @@ inline std::string encode_set(const Set &s, const PSpec &p) {
   return refosc::encode(addr, tags, {a});
 }
 
+
+// ---- shared by C12 and C13
+inline std::vector<Set> gen_history(const AppSpec &spec, int maxlen) {
+  std::vector<Set> h;
+  int n = vf::sized<int>(0, maxlen);
+  std::vector<int> targets = {0};
+  if (spec.has_sub) targets.push_back(1);
+  if (spec.has_psub && !spec.psub_null) targets.push_back(2);
+  if (spec.has_subs) { targets.push_back(3); targets.push_back(4); targets.push_back(5); }
+  for (int i = 0; i < n; i++) {
+    Set s;
+    s.target = targets[(size_t)vf::pickn((int)targets.size())];
+    const std::vector<PSpec> &ps = s.target == 0 ? spec.root : spec.sub;
+    if (ps.empty()) continue;
+    const PSpec &p = ps[(size_t)vf::pickn((int)ps.size())];
+    s.field = p.field;
+    s.v = vf::chance(25) && p.has_default ? p.dflt[(size_t)vf::pickn(4)] : gen_val(p.field, p);   // sometimes exactly a default
+    if (kind_of(p.field) == K_AINT || kind_of(p.field) == K_AFLOAT) s.idx = vf::pickn(4);
+    s.by_symbol = vf::coin();
+    h.push_back(s);
+  }
+  return h;
+}
+// apply a message to the model (field values only; same semantics as the application)
+inline void model_apply(App &m, const Set &s) {
+  if (s.target == 0) {
+    Val cur = get_root(m.root, s.field);
+    if (s.idx >= 0) { if (kind_of(s.field) == K_AINT) cur.ai[(size_t)s.idx] = s.v.ai[(size_t)s.idx]; else cur.af[(size_t)s.idx] = s.v.af[(size_t)s.idx]; }
+    else cur = s.v;
+    set_root(m.root, s.field, cur);
+    if (s.field == PRESET) m.on_changed("/preset");
+    if (s.field == RI) m.on_changed("/ri");
+  } else {
+    Sub *sub = s.target == 1 ? &m.root.sub : s.target == 2 ? m.root.psub : &m.root.subs[s.target - 3];
+    if (!sub) return;
+    Val cur = get_sub(*sub, s.field);
+    if (s.idx >= 0) cur.ai[(size_t)s.idx] = s.v.ai[(size_t)s.idx]; else cur = s.v;
+    set_sub(*sub, s.field, cur);
+  }
+}
+// only_saved_scope: skip ports without default and everything below disabled sub-trees (documented omissions)
+inline std::string compare(App &a, App &b, bool only_saved_scope, const char *what) {
+  for (auto &p : a.spec.root) {
+    if (only_saved_scope && !p.has_default) continue;
+    if (!get_root(a.root, p.field).eq(get_root(b.root, p.field), kind_of(p.field)))
+      return std::string(what) + ": /" + name_of(p.field) + " is " + get_root(a.root, p.field).show(kind_of(p.field)) + ", expected " + get_root(b.root, p.field).show(kind_of(p.field));
+  }
+  std::vector<Sub *> sa = a.subs(), sb = b.subs();
+  std::vector<std::string> pre = a.sub_prefixes();
+  for (size_t k = 0; k < sa.size(); k++) {
+    bool by_en = (pre[k] == "/sub/" && a.spec.sub_en_by) || (pre[k] == "/psub/" && a.spec.psub_en_by) || (pre[k].compare(0, 5, "/subs") == 0 && a.spec.subs_en_by);
+    bool disabled = (by_en && !b.root.en) || (a.spec.self_on && !sb[k]->on);
+    for (auto &p : a.spec.sub) {
+      if (only_saved_scope && !p.has_default) continue;
+      if (only_saved_scope && disabled && !(p.field == ON && a.spec.self_on && !(by_en && !b.root.en))) continue;
+      if (!get_sub(*sa[k], p.field).eq(get_sub(*sb[k], p.field), kind_of(p.field)))
+        return std::string(what) + ": " + pre[k] + name_of(p.field) + " is " + get_sub(*sa[k], p.field).show(kind_of(p.field)) + ", expected " + get_sub(*sb[k], p.field).show(kind_of(p.field));
+    }
+  }
+  return "";
+}
+// messages of a savefile: a line starting with '/' plus its continuation lines
+inline std::vector<std::string> split_messages(const std::string &file, std::string &header) {
+  std::vector<std::string> m;
+  std::istringstream in(file);
+  std::string l;
+  int hl = 0;
+  while (std::getline(in, l)) {
+    if (hl < 2) { header += l + "\n"; hl++; continue; }
+    if (!l.empty() && l[0] == '/') m.push_back(l);
+    else if (!m.empty()) m.back() += "\n" + l;
+  }
+  return m;
+}
+inline int load(App &a, const std::string &file, const char *appname = "genapp") {
+  a.attach();
+  hook().fn = [&a](const char *loc) { a.on_changed(loc); };
+  const rtosc_version ver = {1, 2, 3};
+  int rv = rtosc::load_from_file(file.c_str(), *a.rootports, &a.root, appname, ver);
+  hook().fn = nullptr;
+  return rv;
+}
+inline std::string save(App &a) {
+  a.attach();
+  std::set<std::string> written;
+  const rtosc_version ver = {1, 2, 3};
+  return rtosc::save_to_file(*a.rootports, &a.root, "genapp", ver, written, {});
+}
 }  // namespace ga
